@@ -48,12 +48,28 @@ func main() {
 			}
 			return string(b)
 		}
+		// qsub replaces the first q (value 0) of the data part by a character outside the Bech32 alphabet, same case
+		qsub := func(a, b string) string {
+			for _, s := range []string{a, b} {
+				from := strings.LastIndexByte(s, '1') + 1
+				for p := from; p < len(s)-6; p++ {
+					if s[p] == 'q' {
+						return s[:p] + "b" + s[p+1:]
+					}
+					if s[p] == 'Q' {
+						return s[:p] + "B" + s[p+1:]
+					}
+				}
+			}
+			return a[:len(a)-7] + "!" + a[len(a)-6:]
+		}
 		type kind struct{ name, text string }
 		mkAlpha := func(a, b, other string, swapCase func(string) string) []kind {
 			return []kind{
 				{"keyA", a}, {"keyB", b}, {"comment", "# " + a}, {"comment2", "#"}, {"empty", ""}, {"cr", "\r"}, {"space", " "}, {"tab+key", "\t" + a}, {"space+key", " " + a}, {"key+space", a + " "},
 				{"key-substituted", sub(a)}, {"key-truncated", a[:len(a)-1]}, {"key-truncated-8", a[:len(a)-8]}, {"key-wrong-case", swapCase(a)}, {"key-mixed-case", mixed(a)},
 				{"other-kind", other}, {"key-twice-on-line", a + " " + b}, {"garbage", "hello world"}, {"key+comment", a + " # note"}, {"nul", a + "\x00"}, {"bom+key", "\xef\xbb\xbf" + a},
+				{"key-q-replaced-by-non-alphabet-character", qsub(a, b)},
 			}
 		}
 		idAlpha := mkAlpha(idA, idB, rcA, strings.ToLower)
